@@ -1,0 +1,66 @@
+//! Verification hooks (only compiled with the `verif` feature): thin public
+//! wrappers over crate-private decoders so that codec properties can be
+//! checked from outside the crate.
+
+use crate::{
+    Bytes, Format, HEADER_OFFSET, Page, RawStrategy, ReadWriteBaseVec, ReadWriteRawVec, Result,
+    Stamp, ValueStrategy, VecValue, Version,
+};
+
+/// Decoded vector header: (header_version, vec_version, computed_version, stamp, format).
+pub type HeaderFields = (Version, Version, Version, Stamp, Format);
+
+pub const HEADER_LEN: usize = HEADER_OFFSET;
+
+pub fn header_from_bytes(bytes: &[u8]) -> Result<HeaderFields> {
+    crate::Header::verif_decode(bytes)
+}
+
+pub fn header_to_bytes(f: HeaderFields) -> Vec<u8> {
+    crate::Header::verif_encode(f)
+}
+
+/// Page index entry: (start, bytes, values, is_raw).
+pub fn page_from_bytes(bytes: &[u8]) -> Result<(u64, u32, u32, bool)> {
+    let p = Page::from_bytes(bytes)?;
+    Ok((p.start, p.bytes, p.values_count(), p.is_raw()))
+}
+
+pub fn page_to_bytes(start: u64, bytes: u32, values: u32, raw: bool) -> Vec<u8> {
+    let p = if raw {
+        Page::raw(start, bytes, values)
+    } else {
+        Page::compressed(start, bytes, values)
+    };
+    p.to_bytes().to_vec()
+}
+
+/// Summary of a parsed base change record.
+#[derive(Debug, Clone, PartialEq, Eq)]
+pub struct ChangeSummary {
+    pub prev_stamp: u64,
+    pub prev_stored_len: usize,
+    pub truncated_start: usize,
+    pub truncated_values: usize,
+    pub prev_pushed: usize,
+    pub modifications: usize,
+    pub prev_holes: usize,
+}
+
+pub fn parse_base_change<T: VecValue, S: ValueStrategy<T>>(bytes: &[u8]) -> Result<ChangeSummary> {
+    let mut c = crate::ChangeCursor::new(bytes);
+    let d = ReadWriteBaseVec::<usize, T>::parse_change_data(&mut c, size_of::<T>(), |b| S::read(b))?;
+    Ok(ChangeSummary {
+        prev_stamp: u64::from(d.prev_stamp),
+        prev_stored_len: d.prev_stored_len,
+        truncated_start: d.truncated_start,
+        truncated_values: d.truncated_values.len(),
+        prev_pushed: d.prev_pushed.len(),
+        modifications: 0,
+        prev_holes: 0,
+    })
+}
+
+pub fn parse_raw_change<T: VecValue, S: RawStrategy<T>>(bytes: &[u8]) -> Result<ChangeSummary> {
+    ReadWriteRawVec::<usize, T, S>::verif_parse_raw_change(bytes)
+}
